@@ -14,6 +14,7 @@
 #include "torrent/system/event.h"
 #include "torrent/system/thread.h"
 #include "torrent/utils/log.h"
+#include "utils/verif_hooks.h"
 
 #define LT_LOG(log_fmt, ...)                                        \
   lt_log_print(LOG_SYSTEM_POLL, "epoll: " log_fmt, __VA_ARGS__);
@@ -218,6 +219,7 @@ Poll::do_interrupt() {
 
 int
 Poll::poll(std::chrono::microseconds timeout) {
+  LT_VERIF_SCHED("poll_enter");
   auto previous_state = m_polling_state.fetch_or(flag_polling, std::memory_order_acquire);
 
   bool callback_interrupting{};
@@ -233,11 +235,13 @@ Poll::poll(std::chrono::microseconds timeout) {
     callback_interrupting = true;
   }
 
+  LT_VERIF_SCHED(callback_interrupting ? "poll_wait_short" : "poll_wait_full");
   int nfds = ::epoll_wait(m_internal->m_fd,
                           m_internal->m_events.get(),
                           m_internal->m_max_events,
                           static_cast<int>(timeout.count() / 1000));
 
+  LT_VERIF_SCHED("poll_leave");
   m_polling_state.fetch_and(~flag_state_mask, std::memory_order_release);
 
   if (nfds == -1)
